@@ -1159,7 +1159,12 @@ class SshX509CertificateChain(ParsableBase, SshHostKeyBase):
         certificates = []
         for _ in range(parser['certificate_count']):
             parser.parse_bytes('certificate', 4)
-            certificates.append(PublicKeyX509.from_der(bytes(parser['certificate'])))
+            try:
+                certificates.append(PublicKeyX509.from_der(bytes(parser['certificate'])))
+            except ValueError as e:
+                six.raise_from(InvalidValue(parser['certificate'], cls, 'certificate'), e)
+        if not certificates:
+            raise InvalidValue(parser['certificate_count'], cls, 'certificate_count')
 
         parser.parse_numeric('ocsp_response_count', 4)
         ocsp_responses = []
